@@ -102,7 +102,7 @@ func c08bound(ent *c08entry, n int) uint64 {
 		// caller-supplied buffers, two of which are too small to hold a frame
 		k := ent.frames
 		if k == 0 {
-			k = 3
+			k = 4
 		}
 		b += uint64(k) * (c08maxFrame + 1024)
 	}
@@ -595,7 +595,7 @@ func init() {
 		ID: "C08", Level: "model_checking",
 		Rule: "one case = (entry point, input): every decoding entry point of both codecs is given all byte strings of length <= 2, all strings of length <= 5 (quick) / 6 (thorough) over {00,01,04,7f,80,ff}, every truncation of every valid encoding of a corpus drawn from the C06 product (frames and stand-alone attribute / name-entry blobs; sliced at the level the entry point expects), the encodings with garbage appended, every length/count/flags field replaced by {0,1,n-1,n+1,2^31-1,2^32-1}, every type byte 0..255, and frames declared around the 256 KiB limit; derived inputs are de-duplicated per level, so all cases are distinct",
 		Assumptions: []string{
-			"allocation is the runtime.MemStats.TotalAlloc delta around the call on a single goroutine with GOMAXPROCS=1 (minimum of three runs when the bound is exceeded); bound 64 x len(input) + 4 KiB, plus one maximal frame per frame-reading call for the framing entry points (they are called with two reader chunkings and once with a stream ending in a transport error - the filexfer ReadFrom methods for each of four caller-supplied buffers: none, 4 bytes, exactly the limit, larger than the limit - and allocate the declared, already bounds-checked frame or one allocator page)",
+			"allocation is the runtime.MemStats.TotalAlloc delta around the call on a single goroutine with GOMAXPROCS=1 (minimum of three runs when the bound is exceeded); bound 64 x len(input) + 4 KiB, plus one maximal frame per frame-reading call for the framing entry points (they are called with two reader chunkings, once with a stream ending in a transport error and once with one ending in a persistent timeout error - the filexfer ReadFrom methods for each of four caller-supplied buffers: none, 4 bytes, exactly the limit, larger than the limit - and allocate the declared, already bounds-checked frame or one allocator page)",
 			"every call runs in a child process under `ulimit -v 2000000`; an out-of-memory death is attributed to the case announced just before it and counts as an allocation violation",
 			"after an entry point has been reported for a >1 MiB allocation, inputs containing a 32-bit window >= 2^16 are skipped for that entry point (counted under 'skipped' outcomes)",
 			"a case that makes no progress for 60 s is reported as a hang (watchdog; never observed)",
